@@ -12,7 +12,7 @@ ETpot = 2 mm → Depletion = 102 mm.
 namespace Aqua.IrrEx
 open Aqua
 
-def idFn : Fn ℚ := ⟨id, id, id, fun x _ => x, id, id, id, id, id⟩
+def idFn : Fn ℚ := ⟨id, id, id, fun x y => if y = 2 then x * x else x, id, id, id, id, id⟩
 def c1 : Comp ℚ :=
   { dz := 1, dzsum := 1, zMid := 1/2, thS := 1/2, thFC := 3/10, thWP := 1/10,
     thDry := 1/20, tau := 1/2, ksat := 500, pen := 100, aCR := 0, bCR := 0, layer := 1 }
